@@ -44,6 +44,9 @@ def run_case(data):
         ep.call('update_settings', {wire.S_INITIAL_WINDOW_SIZE: ch.pick([30000, 1000, 0, 100000]),
                                     wire.S_MAX_CONCURRENT_STREAMS: ch.pick([0, 1, 50])})
         r.labels.add('settings-in-flight-at-close')
+    if ch.bool():
+        _ = ep.c.open_outbound_streams, ep.c.open_inbound_streams     # closed streams leave the stream table
+        r.labels.add('closed-streams-cleaned-up-before-close')
     route = ch.weighted([(3, 'close_connection'), (3, 'recv-goaway'), (4, 'connection-error')])
     if route == 'close_connection':
         o = ep.call('close_connection', ch.pick([0, 2, 11]))
